@@ -27,6 +27,10 @@
 varintWidth varintTaggedPutVarint32(uint8_t *p, uint32_t v);
 varintWidth varintTaggedGetVarint32(const uint8_t *z, uint32_t *pResult);
 
+/* macro arguments are passed as expressions whose top-level operator binds looser than + and -:
+ * a macro that forgets to parenthesise a parameter then computes something else */
+static volatile uint64_t g_zero = 0;
+static volatile size_t g_zoff = 0;
 static const char *PROP = "C01";
 static int MODE = 1;
 static distinct_t g_distinct;
@@ -108,24 +112,24 @@ static int tg_putfw(uint8_t *d, uint64_t v) { g_ctx = "varintTaggedPut64FixedWid
 static int tg_putfwq(uint8_t *d, uint64_t v) {
     g_ctx = "varintTaggedPut64FixedWidthQuick_";
     varintWidth w = varintTaggedLen(v);
-    varintTaggedPut64FixedWidthQuick_(d, v, w);
+    varintTaggedPut64FixedWidthQuick_(d + g_zoff, v | g_zero, w);
     return (int)w;
 }
 static int tg_put32(uint8_t *d, uint64_t v) { g_ctx = "varintTaggedPutVarint32"; return varintTaggedPutVarint32(d, (uint32_t)v); }
 static int tg_get(const uint8_t *s, uint64_t *v) { g_ctx = "varintTaggedGet"; return varintTaggedGet(s, 9, v); }
 static int tg_get64(const uint8_t *s, uint64_t *v) { g_ctx = "varintTaggedGet64"; return varintTaggedGet64(s, v); }
 static int tg_getrv(const uint8_t *s, uint64_t *v) { g_ctx = "varintTaggedGet64ReturnValue"; *v = varintTaggedGet64ReturnValue(s); return varintTaggedGetLen(s); }
-static int tg_getq(const uint8_t *s, uint64_t *v) { g_ctx = "varintTaggedGet64Quick_"; *v = varintTaggedGet64Quick_(s); return varintTaggedGetLenQuick_(s); }
+static int tg_getq(const uint8_t *s, uint64_t *v) { g_ctx = "varintTaggedGet64Quick_"; *v = varintTaggedGet64Quick_(s + g_zoff); return varintTaggedGetLenQuick_(s + g_zoff); }
 static int tg_get32(const uint8_t *s, uint64_t *v) { g_ctx = "varintTaggedGetVarint32"; uint32_t x = 0; int n = varintTaggedGetVarint32(s, &x); *v = x; return n; }
 static int tg_getexact(const uint8_t *s, uint64_t *v) { g_ctx = "varintTaggedGet(n=len)"; return varintTaggedGet(s, varintTaggedGetLen(s), v); }
 static int tg_len(uint64_t v) { return varintTaggedLen(v); }
-static int tg_lenq(uint64_t v) { return varintTaggedLenQuick(v); }
+static int tg_lenq(uint64_t v) { return varintTaggedLenQuick(v | g_zero); }
 static int tg_getlen(const uint8_t *s) { return varintTaggedGetLen(s); }
-static int tg_getlenq(const uint8_t *s) { return varintTaggedGetLenQuick_(s); }
+static int tg_getlenq(const uint8_t *s) { return varintTaggedGetLenQuick_(s + g_zoff); }
 
 /* chained */
 static int ch_put(uint8_t *d, uint64_t v) { g_ctx = "varintChainedPutVarint"; return varintChainedPutVarint(d, v); }
-static int ch_put32m(uint8_t *d, uint64_t v) { g_ctx = "varintChained_putVarint32"; uint32_t b = (uint32_t)v; return varintChained_putVarint32(d, b); }
+static int ch_put32m(uint8_t *d, uint64_t v) { g_ctx = "varintChained_putVarint32"; uint32_t b = (uint32_t)v; return varintChained_putVarint32(d + g_zoff, b | (uint32_t)g_zero); }
 static int ch_get(const uint8_t *s, uint64_t *v) { g_ctx = "varintChainedGetVarint"; return varintChainedGetVarint(s, v); }
 /* the function form documents that the single-byte case must already have been
  * handled by the macro ("this function assumes the single-byte case has already
@@ -135,7 +139,7 @@ static int ch_get32(const uint8_t *s, uint64_t *v) {
     if (!(s[0] & 0x80)) { *v = s[0]; return 1; }
     uint32_t x = 0; int n = varintChainedGetVarint32(s, &x); *v = x; return n;
 }
-static int ch_get32m(const uint8_t *s, uint64_t *v) { g_ctx = "varintChained_getVarint32"; uint32_t x = 0; int n = varintChained_getVarint32(s, x); *v = x; return n; }
+static int ch_get32m(const uint8_t *s, uint64_t *v) { g_ctx = "varintChained_getVarint32"; uint32_t x = 0; int n = varintChained_getVarint32(s + g_zoff, x); *v = x; return n; }
 static int ch_len(uint64_t v) { return varintChainedVarintLen(v); }
 static int ch_getlen(const uint8_t *s) { /* length is found by walking: first byte without the flag, or the 9th */
     int n = 1;
@@ -152,14 +156,14 @@ static int cs_get32f(const uint8_t *s, uint64_t *v) { g_ctx = "varintChainedSimp
 static int cs_len(uint64_t v) { return varintChainedSimpleLength(v); }
 
 #define SPLITFAM(N, PFX, NAME)                                                                                         \
-    static int N##_put(uint8_t *d, uint64_t v) { g_ctx = NAME "Put_"; varintWidth len = 0; PFX##Put_(d, len, v); return (int)len; } \
+    static int N##_put(uint8_t *d, uint64_t v) { g_ctx = NAME "Put_"; varintWidth len = 0; PFX##Put_(d, len, v | g_zero); return (int)len; } \
     static int N##_get(const uint8_t *s, uint64_t *v) { g_ctx = NAME "Get_"; varintWidth len = 0; uint64_t x = 0; PFX##Get_(s, len, x); *v = x; return (int)len; } \
-    static int N##_len(uint64_t v) { varintWidth len = 0; PFX##Length_(len, v); return (int)len; }                   \
+    static int N##_len(uint64_t v) { varintWidth len = 0; PFX##Length_(len, v | g_zero); return (int)len; }                   \
     static int N##_getlen(const uint8_t *s) { varintWidth len = 0; PFX##GetLen_(s, len); return (int)len; }          \
     static int N##_getlenq(const uint8_t *s) { return (int)PFX##GetLenQuick_(s); }
 #define SPLITREV(N, PFX, NAME)                                                                                         \
-    static int N##_rputf(uint8_t *d, uint64_t v) { g_ctx = NAME "ReversedPutForward_"; varintWidth len = 0; PFX##ReversedPutForward_(d, len, v); return (int)len; } \
-    static int N##_rputr(uint8_t *d, uint64_t v) { g_ctx = NAME "ReversedPutReversed_"; varintWidth len = 0; PFX##ReversedPutReversed_(d, len, v); return (int)len; } \
+    static int N##_rputf(uint8_t *d, uint64_t v) { g_ctx = NAME "ReversedPutForward_"; varintWidth len = 0; PFX##ReversedPutForward_(d, len, v | g_zero); return (int)len; } \
+    static int N##_rputr(uint8_t *d, uint64_t v) { g_ctx = NAME "ReversedPutReversed_"; varintWidth len = 0; PFX##ReversedPutReversed_(d, len, v | g_zero); return (int)len; } \
     static int N##_rget(const uint8_t *s, uint64_t *v) { g_ctx = NAME "ReversedGet_"; varintWidth len = 0; uint64_t x = 0; PFX##ReversedGet_(s, len, x); *v = x; return (int)len; }
 
 SPLITFAM(sp, varintSplit, "varintSplit")
@@ -361,7 +365,7 @@ static void c01_tagged_fixed(uint64_t v) {
             int n;
             if (variant) {
                 g_ctx = "varintTaggedPut64FixedWidthQuick_";
-                varintTaggedPut64FixedWidthQuick_(w, v, (varintWidth)W);
+                varintTaggedPut64FixedWidthQuick_(w, v | g_zero, (varintWidth)W);
                 n = W;
             } else {
                 g_ctx = "varintTaggedPut64FixedWidth";
@@ -411,9 +415,9 @@ static void c01_external(uint64_t v, rng_t *r) {
         int n = be ? (int)varintExternalBigEndianPut(w, v) : (int)varintExternalPut(w, v);
         varintWidth ue;
         if (be) {
-            varintExternalBigEndianUnsignedEncoding(v, ue);
+            varintExternalBigEndianUnsignedEncoding(v | g_zero, ue);
         } else {
-            varintExternalUnsignedEncoding(v, ue);
+            varintExternalUnsignedEncoding(v | g_zero, ue);
         }
         if (n != minw || (int)ue != minw || n < 1 || n > 8) {
             FAIL(fam, "Put", "length-disagrees", "v=%" PRIu64 " Put=%d UnsignedEncoding=%d minimal=%d", v, n, (int)ue, minw);
@@ -453,16 +457,16 @@ static void c01_external(uint64_t v, rng_t *r) {
                     if (variant == 0) {
                         varintExternalBigEndianPutFixedWidth(w, v, (varintWidth)W);
                     } else {
-                        varintExternalBigEndianPutFixedWidthQuick_(w, v, (varintWidth)W);
+                        varintExternalBigEndianPutFixedWidthQuick_(w + g_zoff, v | g_zero, (varintWidth)W);
                     }
                 } else if (variant == 0) {
                     varintExternalPutFixedWidth(w, v, (varintWidth)W);
                 } else if (variant == 1) {
-                    varintExternalPutFixedWidthQuick_(w, v, (varintWidth)W);
+                    varintExternalPutFixedWidthQuick_(w + g_zoff, v | g_zero, (varintWidth)W);
                 } else {
                     if (W == 1) { /* QuickMedium_ has no 1-byte fast path but delegates */
                     }
-                    varintExternalPutFixedWidthQuickMedium_(w, v, (varintWidth)W);
+                    varintExternalPutFixedWidthQuickMedium_(w + g_zoff, v | g_zero, (varintWidth)W);
                 }
                 if (!arena_outside_ok(w, (size_t)W)) {
                     FAIL(fam, nm, "write-outside-length", "v=%" PRIu64 " width=%d arena=%s", v, W, hexs(w - 2, 14));
@@ -474,11 +478,11 @@ static void c01_external(uint64_t v, rng_t *r) {
                 uint64_t o1, o2 = v, o3 = v, o4 = v;
                 if (be) {
                     o1 = varintExternalBigEndianGet(w, (varintWidth)W);
-                    varintExternalBigEndianGetQuick_(w, (varintWidth)W, o2);
+                    varintExternalBigEndianGetQuick_(w + g_zoff, (varintWidth)W, o2);
                 } else {
                     o1 = varintExternalGet(w, (varintWidth)W);
-                    varintExternalGetQuick_(w, (varintWidth)W, o2);
-                    varintExternalGetQuickMedium_(w, (varintWidth)W, o3);
+                    varintExternalGetQuick_(w + g_zoff, (varintWidth)W, o2);
+                    varintExternalGetQuickMedium_(w + g_zoff, (varintWidth)W, o3);
                     o4 = varintExternalGetQuickMediumReturnValue_(w, (varintWidth)W);
                 }
                 if (o1 != v || o2 != v || o3 != v || o4 != v) {
@@ -592,6 +596,43 @@ static void c01_signed(uint64_t v, rng_t *r) {
     }
 }
 
+/* macros given compile-time constant arguments (literals), once per process */
+#define CONSTS(X)                                                                                                      \
+    X(0ULL) X(1ULL) X(63ULL) X(64ULL) X(127ULL) X(128ULL) X(240ULL) X(241ULL) X(2287ULL) X(2288ULL) X(16383ULL) X(16384ULL) X(16446ULL) \
+    X(16447ULL) X(67823ULL) X(67824ULL) X(4210749ULL) X(4210750ULL) X(4210751ULL) X(16777215ULL) X(16777216ULL) X(1077952509ULL)        \
+    X(1077952510ULL) X(4294967295ULL) X(4294967296ULL) X(1099511627775ULL) X(1099511627776ULL) X(123456789012345ULL)                  \
+    X(281474976710655ULL) X(281474976710656ULL) X(72057594037927935ULL) X(72057594037927936ULL) X(9223372036854775807ULL)             \
+    X(18446744073709551615ULL)
+static void c01_constant_arguments(void) {
+#define X(lit)                                                                                                         \
+    do {                                                                                                               \
+        int want = ref_tagged_len(lit);                                                                                \
+        if ((int)varintTaggedLenQuick(lit) != want) FAIL("tagged", "LenQuick", "length-disagrees", "constant argument " #lit ": %d, Len says %d", (int)varintTaggedLenQuick(lit), want); \
+        varintWidth ue;                                                                                                \
+        varintExternalUnsignedEncoding(lit, ue);                                                                       \
+        if ((int)ue != ref_bytes_needed(lit)) FAIL("externalLE", "UnsignedEncoding", "length-disagrees", "constant argument " #lit); \
+        uint8_t b[16], rb[16];                                                                                         \
+        varintWidth l1 = 0, l2 = 0, l3 = 0, l4 = 0;                                                                    \
+        varintSplitPut_(b, l1, lit);                                                                                   \
+        varintSplitLength_(l2, lit);                                                                                   \
+        if ((int)l1 != ref_split(rb, lit) || l1 != l2 || memcmp(b, rb, l1)) FAIL("split", "Put_", "length-disagrees", "constant argument " #lit); \
+        varintSplitFullPut_(b, l3, lit);                                                                               \
+        varintSplitFullLength_(l4, lit);                                                                               \
+        if ((int)l3 != ref_splitfull(rb, lit) || l3 != l4 || memcmp(b, rb, l3)) FAIL("splitFull", "Put_", "length-disagrees", "constant argument " #lit); \
+        varintSplitFull16Put_(b, l1, lit);                                                                             \
+        varintSplitFull16Length_(l2, lit);                                                                             \
+        if ((int)l1 != ref_split16(rb, lit) || l1 != l2 || memcmp(b, rb, l1)) FAIL("splitFull16", "Put_", "length-disagrees", "constant argument " #lit); \
+        if ((lit) >= 1) {                                                                                              \
+            varintSplitFullNoZeroPut_(b, l1, lit);                                                                     \
+            varintSplitFullNoZeroLength_(l2, lit);                                                                     \
+            if ((int)l1 != ref_splitnz(rb, lit) || l1 != l2 || memcmp(b, rb, l1)) FAIL("splitFullNoZero", "Put_", "length-disagrees", "constant argument " #lit); \
+        }                                                                                                              \
+        STAT_INC("c01_constant_argument_checks");                                                                      \
+    } while (0);
+    CONSTS(X)
+#undef X
+}
+
 static void c01_value(uint64_t v, rng_t *r) {
     for (size_t fi = 0; fi < NFAMS; fi++) {
         c01_family(&FAMS[fi], (int)fi, v);
@@ -642,7 +683,14 @@ static void c04_value(uint64_t v) {
         if (v != UINT64_MAX) {
             int l0 = F->lens[0].f(v), l1 = F->lens[0].f(v + 1);
             int r1 = F->ref(rb2, v + 1);
-            if (l0 > l1) {
+            bool knob = false;
+#ifdef VARINT_SPLIT_FULL_USE_MAXIMUM_RANGE
+            knob = knob || !strcmp(F->name, "splitFull");
+#endif
+#ifdef VARINT_SPLIT_FULL_NO_ZERO_USE_MAXIMUM_RANGE
+            knob = knob || !strcmp(F->name, "splitFullNoZero");
+#endif
+            if (l0 > l1 && !knob) {
                 FAIL(F->name, F->lens[0].name, "length-decreases-with-value", "len(%" PRIu64 ")=%d > len(+1)=%d", v, l0, l1);
             }
             if (l1 != r1 || l0 != rl) {
@@ -1214,13 +1262,19 @@ int main(int argc, char **argv) {
     digest_init(&g_dig);
     if (!strcmp(g_mode, "c01")) {
         MODE = 1, PROP = "C01";
+        if (g_from == 0 && g_only < 0) {
+            g_case = 0;
+            c01_constant_arguments();
+        }
         CASE_LOOP(scalar_case);
     } else if (!strcmp(g_mode, "c04")) {
         MODE = 4, PROP = "C04";
+#if !defined(VARINT_SPLIT_FULL_USE_MAXIMUM_RANGE) && !defined(VARINT_SPLIT_FULL_NO_ZERO_USE_MAXIMUM_RANGE)
         if (g_shard == 0 && g_from == 0 && g_only < 0) {
             g_case = 0;
             c04_tables();
         }
+#endif
         CASE_LOOP(scalar_case);
     } else if (!strcmp(g_mode, "c05")) {
         MODE = 5, PROP = "C05";
